@@ -33,6 +33,8 @@ def build(vacuity=False):
          "rules": ["deasync", "attrs", "statics", "format", "cut_chain", "try_desugar"], "statics": {"HTTP_CLIENT": "http_client()"},
          "cut_method": "get", "off_features": ["verif-hooks"], "anchors": vxlib.anchors_for(fc, vacuity)},
         {"key": "authentication.minecraft_hash", "file": "passage-adapters/src/authentication/mod.rs", "kind": "fn", "name": "minecraft_hash", "rules": ["attrs"]},
+        {"key": "mojang.with_server_id", "file": SRC, "kind": "impl_fn", "self_ty": "MojangAdapter", "trait": "-", "name": "with_server_id", "rules": ["attrs", "mut_self"],
+         "anchors": ["fn:begin"] if vacuity else []},
     ])
     with open(os.path.join(HERE, "..", "U6", "prelude.rs")) as f:
         u.raw(f.read())
@@ -51,5 +53,7 @@ def build(vacuity=False):
     u.raw("    impl MojangAdapter {\n")
     ex["mojang.authenticate"]["vis"] = ""
     u.add_fn(ex["mojang.authenticate"], fc, vacuity=vacuity, indent="        ")
+    ex["mojang.with_server_id"]["vis"] = ""
+    u.add_fn(ex["mojang.with_server_id"], vxlib.FnContract("mojang.with_server_id", C["fn"]["mojang.with_server_id"]), vacuity=vacuity, indent="        ")
     u.raw("    }\n}\n} // verus!\nfn main() {}\n")
     return u
